@@ -105,7 +105,7 @@ PROPS = {
         not_decided="ToUnicode text generation (format!/String code: stand-in embedded-font only), the choice of max_unicode in generate_cid_to_gid_map (iterator adapters; the block takes max_unicode <= 0xFFFF as a precondition), glyph presence, the widths returned by get_glyph_widths, anything an independent extractor would check",
     ),
     "C16": dict(
-        verus=["rotate", "pagerange", "inherit"],
+        verus=["rotate", "pagerange", "inherit", "pagecopy"],
         standins=["pageops"],
         kani=[K("c16_from_degrees_all_i32", "operations/rotate.rs", "RotationAngle::from_degrees/to_degrees"),
               K("c16_combine", "operations/rotate.rs", "RotationAngle::combine")],
